@@ -345,6 +345,7 @@ func c13Units(tier string) []Unit {
 		{"decorators", alpha{scopes: []int{0, 1}, ctors: []*uFunc{pAe, pBe}, decos: []*uFunc{dAe, dABe}, invokes: []*uFunc{iAe, iBe}}, []string{"dAe", "dABe", "pAe"}, prefixChild},
 		{"group-decorator", alpha{scopes: []int{0, 1}, ctors: []*uFunc{fG1e, pCe}, decos: []*uFunc{dGe}, invokes: []*uFunc{iCe, iOe}}, []string{"dGe", "fG1e"}, prefixChild},
 		{"panic-only-functions", alpha{scopes: []int{0, 1}, ctors: []*uFunc{pA, pBp}, decos: []*uFunc{dAp}, invokes: []*uFunc{iA, iB}}, []string{"pBp", "dAp", "iA"}, prefixChild},
+		{"with-callbacks", alpha{scopes: []int{0, 1}, ctors: []*uFunc{pA, pBe.With("pBecb", u.WithCallback)}, decos: []*uFunc{dAe.With("dAecb", u.WithCallback)}, invokes: []*uFunc{iAe, iBe}}, []string{"pBecb", "dAecb"}, prefixChild},
 		{"error-not-last", alpha{scopes: []int{0, 1}, ctors: []*uFunc{pAef, pBem}, decos: []*uFunc{dAef}, invokes: []*uFunc{iAe, iBe, iBn}}, []string{"pAef", "pBem", "dAef"}, prefixChild},
 		{"reentry-single", alpha{scopes: []int{0, 1}, ctors: []*uFunc{pA, pBe}, decos: []*uFunc{dABae}, invokes: []*uFunc{iAe, iBe}}, []string{"dABae", "pBe"}, prefixChild},
 		{"reentry-group", alpha{scopes: []int{0, 1}, ctors: []*uFunc{pA, fBgAe}, decos: []*uFunc{dGBAe}, invokes: []*uFunc{iAe, iGB}}, []string{"dGBAe", "fBgAe"}, prefixChild},
